@@ -58,6 +58,23 @@ def shard(args):
             cases.append((i, cfg, ops))
             feats['coded-body'] = feats.get('coded-body', 0) + 1
             continue
+        if i % 40 == 13:
+            # an accepted CONNECT whose tunnel carries plain HTTP: the probe behind the 2xx answer looks at the first line of what
+            # follows, and where the stream is cut inside that line (or inside the method word) must not matter
+            r = grammar.Rng(seed * 7919 + i)
+            nonce = '%06x' % r.randrange(1 << 24)
+            con = ('CONNECT t%s.example:443 HTTP/1.1\r\nHost: t%s.example:443\r\n\r\n' % (nonce, nonce)).encode()
+            ops = [(hxb.REQ, con), (hxb.RES, b'HTTP/1.1 200 Connection established\r\n\r\n')]
+            for k in range(r.randint(1, 2)):
+                m = r.pick(['OPTIONS', 'DELETE', 'PATCH', 'PROPFIND', 'GET', 'POST', 'HEAD', 'MKCALENDAR', 'TRACE'])
+                b = b'k=%d' % k if m in ('POST', 'PATCH') else b''
+                ops.append((hxb.REQ, ('%s /in-tunnel/%d-%s HTTP/1.1\r\nHost: t%s.example\r\n%s\r\n' % (m, k, nonce, nonce, 'Content-Length: %d\r\n' % len(b) if b else '')).encode() + b))
+                rb = b'' if m == 'HEAD' else b'ok%d' % k
+                ops.append((hxb.RES, b'HTTP/1.1 200 OK\r\nContent-Length: %d\r\n\r\n' % len(rb) + rb))
+            ops.append((hxb.CLOSE, None))
+            cases.append((i, {'PERSONALITY': r.randrange(10)}, ops))
+            feats['connect-tunnel-http'] = feats.get('connect-tunnel-http', 0) + 1
+            continue
         ex = grammar.gen_exchange(seed * 1000003 + i, {'res_fold': True, 'max_body': 80 if i % 4 else 400})
         r = grammar.Rng(seed * 7919 + i)
         kind, ops = oracle.schedules(ex, r, r.pick(['seq', 'pipelined', 'coalesced', 'random']))
